@@ -451,6 +451,19 @@ def decide_cond(c, rng=None, tables=None):
     return None
 
 
+def _settle_operands(c, rng, tables, log):
+    def go(x):
+        if x[0] in ("and", "or", "not"):
+            return (x[0],) + tuple(go(y) for y in x[1:])
+        v = decide_cond(x, rng, tables)
+        if v is None:
+            return x
+        if log is not None:
+            log.append((x, v))
+        return C(int(v))
+    return _bool_simplify(go(c))
+
+
 def prune(t, rng, tables=None, band=None, log=None):
     """drop the arms of conditionals that cannot be taken inside `rng` (defensive branches, assertions): a
     condition decided by decide_cond is folded, everything else is left alone.  `log` collects (condition, value).
@@ -464,6 +477,9 @@ def prune(t, rng, tables=None, band=None, log=None):
                 if log is not None:
                     log.append((c, v))
                 return renorm(x[2] if v else x[3], leaf, band)
+            if c[0] in ("and", "or", "not"):
+                # operands of a composite condition that the box decides (`0 <= fn` of `0 <= fn < n`) are folded away
+                c = _settle_operands(c, rng, tables, log)
             return ite_(c, renorm(x[2], leaf, band), renorm(x[3], leaf, band))
         if x[0] == "mod":
             a, n = renorm(x[1], leaf, band), renorm(x[2], leaf, band)
@@ -475,6 +491,139 @@ def prune(t, rng, tables=None, band=None, log=None):
             return mod_(a, n)
         return None
     return renorm(t, leaf, band)
+
+
+# ------------------------------------------------------------------------------
+# exact solution sets of guard conditions over one integer symbol (finite unions of closed intervals)
+
+def _iv_and(a, b):
+    out = []
+    for (l1, h1) in a:
+        for (l2, h2) in b:
+            lo, hi = max(l1, l2), min(h1, h2)
+            if lo <= hi:
+                out.append((lo, hi))
+    return sorted(out)
+
+
+def _iv_not(a, lo, hi):
+    out, cur = [], lo
+    for (l, h) in sorted(a):
+        if l > cur:
+            out.append((cur, l - 1))
+        cur = max(cur, h + 1)
+    if cur <= hi:
+        out.append((cur, hi))
+    return out
+
+
+def _iv_or(a, b, lo, hi):
+    return _iv_not(_iv_and(_iv_not(a, lo, hi), _iv_not(b, lo, hi)), lo, hi)
+
+
+def solve_cond(c, var, lo, hi):
+    """The set of integers v in lo..hi on which condition term c holds, as a sorted list of disjoint closed intervals
+    -- exact, no enumeration: every atom must be a linear comparison of `var` with a constant (k*var + c < 0 or == 0,
+    which covers `<`, `<=`, `>`, `>=`, `==`, `!=`, chained comparisons and `in range(a, b)` after lowering); None when
+    some atom is anything else (the caller then folds the condition over the whole finite domain)."""
+    k = c[0]
+    if k == "c":
+        return [(lo, hi)] if c[1] else []
+    if k == "not":
+        s = solve_cond(c[1], var, lo, hi)
+        return None if s is None else _iv_not(s, lo, hi)
+    if k in ("and", "or"):
+        acc = [(lo, hi)] if k == "and" else []
+        for x in c[1:]:
+            s = solve_cond(x, var, lo, hi)
+            if s is None:
+                return None
+            acc = _iv_and(acc, s) if k == "and" else _iv_or(acc, s, lo, hi)
+        return acc
+    if k == "cmp" and c[1] in ("<", "=="):
+        co, k0 = X.linear(X.sub(c[2], c[3]))
+        if not co:
+            return [(lo, hi)] if (k0 < 0 if c[1] == "<" else k0 == 0) else []
+        if list(co) != [X.show(var)] or co[X.show(var)] == 0:
+            return None
+        q = co[X.show(var)]
+        if c[1] == "==":
+            s = [(-k0 // q, -k0 // q)] if -k0 % q == 0 else []
+        elif q > 0:
+            s = [(-INF, (-k0 - 1) // q)]                # q*v + k0 < 0  <=>  v <= floor((-k0 - 1) / q)
+        else:
+            s = [(k0 // -q + 1, INF)]                   # (-q)*v > k0   <=>  v >= floor(k0 / -q) + 1
+        return _iv_and(s, [(lo, hi)])
+    return None
+
+
+def raise_cond(t):
+    """condition term under which the conditional term t ends in a ('raise', ..) leaf; C(0) when it has none"""
+    if t[0] == "raise":
+        return C(1)
+    if t[0] != "ite":
+        return C(0)
+    a, b = raise_cond(t[2]), raise_cond(t[3])
+    return truth(("or", truth(("and", t[1], a)), truth(("and", ("not", t[1]), b))))
+
+
+def _bool_simplify(c):
+    """constant operands of and / or / not folded away"""
+    k = c[0]
+    if k == "not":
+        u = _bool_simplify(c[1])
+        return C(1 - u[1]) if u[0] == "c" else truth(("not", u))
+    if k in ("and", "or"):
+        absorbing = 0 if k == "and" else 1
+        parts = []
+        for x in c[1:]:
+            u = _bool_simplify(x)
+            if u[0] == "c":
+                if bool(u[1]) == bool(absorbing):
+                    return C(absorbing)
+                continue
+            parts.append(u)
+        if not parts:
+            return C(1 - absorbing)
+        return truth((k,) + tuple(parts))
+    return c
+
+
+def drop_raises(t):
+    """t on the inputs that do not raise: every conditional with a raising arm is replaced by its other arm"""
+    if t[0] != "ite":
+        return t
+    a, b = drop_raises(t[2]), drop_raises(t[3])
+    if a[0] == "raise":
+        return b
+    if b[0] == "raise":
+        return a
+    return ite_(t[1], a, b)
+
+
+def first_true(c, sym, n):
+    """smallest x in 0..n-1 on which the condition term c over `sym` holds, None when there is none: the condition is
+    folded by the checker's own arithmetic for every value (one compiled loop).  AnalysisError outside that arithmetic."""
+    src = "def _f():\n    for x in range(%d):\n        if %s:\n            return x\n    return None\n" % (n, term_src(c, {sym: "x"}))
+    g = {"__builtins__": {}, "range": range, "_at": _at, "_red": _red}
+    try:
+        exec(compile(src, "<first_true>", "exec"), g)
+        return g["_f"]()
+    except (SyntaxError, RecursionError, MemoryError, ArithmeticError, _Outside, TypeError, ValueError) as e:
+        raise AnalysisError("condition cannot be folded over 0..%d: %s" % (n - 1, e))
+
+
+def raising_inputs(t, var, lo, hi):
+    """(smallest value of `var` in lo..hi on which the conditional term t raises or None, how many such values or
+    None when they were not counted, how it was decided).  Exact: the guard conditions are solved as interval sets
+    when they are linear comparisons of `var` with constants, otherwise folded for every value of the finite domain."""
+    rc = _bool_simplify(raise_cond(t))
+    s = solve_cond(rc, var, lo, hi)
+    if s is not None:
+        return (s[0][0] if s else None), sum(h - l + 1 for l, h in s), "interval solution of the guard conditions"
+    if lo != 0:
+        raise AnalysisError("guard condition %s is not decided by intervals" % show(rc)[:120])
+    return first_true(rc, var, hi + 1), None, "guard conditions folded for each of the %d values" % (hi + 1)
 
 
 # ------------------------------------------------------------------------------
@@ -713,13 +862,37 @@ class _PL(X.PyLower):
                 return ("call", "." + e.func.attr, self.lower(e.func.value)) + tuple(self.lower(a) for a in e.args)
         return X.PyLower.lower(self, e)
 
+    def _in_range(self, x, rng):
+        """`x in range(a, b, s)` (the builtin, constant step) on an integer x as arithmetic: a <= x < b and
+        (x - a) mod s == 0 (mirrored for a negative step); None when `rng` is not such a call.  The values this
+        machinery reasons about (frame numbers, hopping parameters) are integers."""
+        if not (isinstance(rng, ast.Call) and isinstance(rng.func, ast.Name) and rng.func.id == "range"
+                and 1 <= len(rng.args) <= 3 and not rng.keywords and not any(isinstance(a, ast.Starred) for a in rng.args)
+                and "range" not in self.env and self.sym.is_builtin("range")):
+            return None
+        args = [self.lower(a) for a in rng.args]
+        lo, hi = (C(0), args[0]) if len(args) == 1 else (args[0], args[1])
+        step = args[2] if len(args) == 3 else C(1)
+        if step[0] != "c" or step[1] == 0:
+            return None
+        v = self.lower(x)
+        if step[1] > 0:
+            parts, off = [X.cmp_(">=", v, lo), X.cmp_("<", v, hi)], X.sub(v, lo)
+        else:
+            parts, off = [X.cmp_("<=", v, lo), X.cmp_(">", v, hi)], X.sub(lo, v)
+        if abs(step[1]) != 1:
+            parts.append(X.cmp_("==", X.mod(off, C(abs(step[1]))), C(0)))
+        return ("and",) + tuple(parts)
+
     def _leaf(self, e):
         if isinstance(e, (ast.Tuple, ast.List)) and not any(isinstance(x, ast.Starred) for x in e.elts):
             return ("tuple",) + tuple(self.lower(x) for x in e.elts)
         if isinstance(e, ast.BoolOp):
             return ("and" if isinstance(e.op, ast.And) else "or",) + tuple(self.lower(x) for x in e.values)
         if isinstance(e, ast.Compare) and len(e.ops) == 1 and isinstance(e.ops[0], (ast.In, ast.NotIn)):
-            t = ("cmp", "in", self.lower(e.left), self.lower(e.comparators[0]))
+            t = self._in_range(e.left, e.comparators[0])
+            if t is None:
+                t = ("cmp", "in", self.lower(e.left), self.lower(e.comparators[0]))
             return t if isinstance(e.ops[0], ast.In) else ("not", t)
         if isinstance(e, ast.Compare) and len(e.ops) > 1:
             parts, left = [], e.left
@@ -864,17 +1037,35 @@ class PySym:
                 continue
             if isinstance(st, ast.Pass):
                 continue
-            if isinstance(st, ast.Assign) and len(st.targets) == 1:
-                self._assign(st.targets[0], self.lower(st.value, env), env)
-                continue
-            if isinstance(st, ast.AugAssign) and isinstance(st.target, (ast.Name, ast.Attribute)):
-                val = ast.BinOp(left=st.target, op=st.op, right=st.value)
-                ast.copy_location(val, st)
-                ast.fix_missing_locations(val)
-                self._assign(st.target, self.lower(val, env), env)
-                continue
+            if isinstance(st, (ast.Assign, ast.AugAssign)) and (
+                    len(st.targets) == 1 if isinstance(st, ast.Assign) else isinstance(st.target, (ast.Name, ast.Attribute))):
+                if isinstance(st, ast.Assign):
+                    target, val = st.targets[0], st.value
+                else:
+                    target = st.target
+                    val = ast.BinOp(left=st.target, op=st.op, right=st.value)
+                    ast.copy_location(val, st)
+                    ast.fix_missing_locations(val)
+                v = self.lower(val, env)
+                g = guarded_value(v)
+                if g is None:
+                    self._assign(target, v, env)
+                    continue
+                # the value is computed by an inlined method that raises under a guard: the statement raises under that
+                # guard, the assignment takes place (with the value of the other arm) on the remaining inputs
+                if g[0] == C(1):
+                    return ("raise", g[1])
+                env2 = dict(env)
+                self._assign(target, g[2], env2)
+                return ("br", g[0], ("raise", g[1]), self.block(stmts[i + 1:], env2))
             if isinstance(st, ast.Return):
-                return ("ret", self.lower(st.value, env) if st.value is not None else ("none",), dict(env))
+                v = self.lower(st.value, env) if st.value is not None else ("none",)
+                g = guarded_value(v) if not _raise_in_arms_only(v) else None
+                if g is not None:
+                    if g[0] == C(1):
+                        return ("raise", g[1])
+                    return ("br", g[0], ("raise", g[1]), ("ret", g[2], dict(env)))
+                return ("ret", v, dict(env))
             if isinstance(st, ast.Raise):
                 e = st.exc.func if isinstance(st.exc, ast.Call) else st.exc
                 return ("raise", canon(e) if e is not None else "Exception")
@@ -926,6 +1117,73 @@ class PySym:
                     env[x.id] = ("idx", v, C(i))
         else:
             raise AnalysisError("forward substitution: assignment target outside the vocabulary: %s" % canon(t)[:60])
+
+
+def _has_raise(t):
+    return any(x[0] == "raise" for x in subterms(t))
+
+
+def _raise_in_arms_only(t):
+    """every ('raise', ..) leaf of t is an arm of the conditionals at its root (the shape result() gives a function that
+    raises on some paths) -- none sits below an operator"""
+    if t[0] == "raise":
+        return True
+    if t[0] == "ite":
+        return not _has_raise(t[1]) and _raise_in_arms_only(t[2]) and _raise_in_arms_only(t[3])
+    return not _has_raise(t)
+
+
+def strict_raise(t):
+    """(condition under which evaluating t raises, exception class) for a term with ('raise', ..) leaves below operators
+    (the value of an inlined method that raises under a guard, used in arithmetic / unpacked): a conditional raises
+    when the arm taken does, every other operator is strict in its operands.  Python's short-circuit `and` / `or` and a
+    raise inside a branch condition are outside the vocabulary."""
+    if t[0] == "raise":
+        return C(1), t[1]
+    if t[0] in ("c", "v") or not _has_raise(t):
+        return C(0), None
+    if t[0] == "ite":
+        if _has_raise(t[1]):
+            raise AnalysisError("forward substitution: a branch condition can raise: %s" % show(t[1])[:80])
+        (a, ca), (b, cb) = strict_raise(t[2]), strict_raise(t[3])
+        return truth(("or", truth(("and", t[1], a)), truth(("and", ("not", t[1]), b)))), ca or cb
+    if t[0] in ("and", "or"):
+        raise AnalysisError("forward substitution: an operand of `%s` can raise: %s" % (t[0], show(t)[:80]))
+    conds, cls = [], None
+    for x in t[1:]:
+        if isinstance(x, tuple) and _has_raise(x):
+            c, k = strict_raise(x)
+            conds.append(c)
+            cls = cls or k
+    return (conds[0] if len(conds) == 1 else truth(("or",) + tuple(conds))), cls
+
+
+def drop_raises_deep(t):
+    """t on the inputs on which it does not raise (strict_raise false): conditionals with a raising arm replaced by the
+    other arm, everywhere in the term"""
+    if t[0] in ("c", "v", "raise") or not _has_raise(t):
+        return t
+    ks = tuple(drop_raises_deep(x) if isinstance(x, tuple) else x for x in t[1:])
+    if t[0] == "ite":
+        c, a, b = ks
+        if a[0] == "raise":
+            return b
+        if b[0] == "raise":
+            return a
+        return ite_(c, a, b)
+    return build((t[0],) + ks)
+
+
+def guarded_value(v):
+    """None when the term v cannot raise; else (condition under which it raises, exception class, v on the other inputs)"""
+    if not _has_raise(v):
+        return None
+    rc, cls = strict_raise(v)
+    rc = _bool_simplify(rc)
+    rest = drop_raises_deep(v)
+    if _has_raise(rest):
+        return C(1), cls, rest
+    return rc, cls, rest
 
 
 def leaves(o, conds=()):
@@ -1758,6 +2016,32 @@ def c_decomposition(L, rule):
     return tu, f, comp, ndiv
 
 
+def total_on_domain(L, rule, res, fd, func="HoppingParams.fn2gsm_time"):
+    """C19.R1 (C07.R4 when called for the hopping rule), clause "the Python toolkit derives the same T1, T2, T3 as the C
+    code" for ALL FN in 0..2715647: the C decomposition is total, so a guard of the Python function that raises (a range
+    check, an assertion) is acceptable only when no frame number of the hyperframe satisfies it.  Decided exactly on the
+    forward-substituted term: the condition under which it ends in a raise is solved as a set of intervals of FN (linear
+    comparisons with folded constants -- `<`, `>=`, chained comparisons, `in range(a, b)` alike) or, for other guards,
+    folded for each of the 2715648 frame numbers.  Empty -> the raising arms are dropped (they reject values outside the
+    domain only); otherwise the smallest such FN is reported: for it Python derives no (T1, T2, T3) where C does.
+    Returns the term on the inputs that do not raise."""
+    if not any(x[0] == "raise" for x in ite_leaves(res)):
+        return res
+    FNv = V("FN")
+    w, count, how = raising_inputs(res, FNv, 0, HYPERFRAME - 1)
+    key = "fn2gsm_time(FN) returns (T1, T2, T3, TC) for every FN in 0..2715647 (a raising guard may reject only values outside the hyperframe)"
+    want = "no FN in 0..2715647 raises"
+    if w is None:
+        L.ob(rule, F_GSM, func, key, want, "%s (%s)" % (want, how), True, fd.lineno)
+    else:
+        v = evalnum(res, {FNv: w})
+        cls = v[1] if isinstance(v, tuple) and v and v[0] == "raise" else "an exception"
+        L.ob(rule, F_GSM, func, key, want, "raises %s for FN = %d%s under the guard %s (%s); gsm_fn2gsmtime gives (%d, %d, %d, %d) there" % (
+            cls, w, "" if count in (None, 1) else " and %d more frame numbers" % (count - 1),
+            show(_bool_simplify(raise_cond(res)))[:160], how, w // 1326, w % 26, w % 51, (w // 51) % 8), False, fd.lineno)
+    return drop_raises(res)
+
+
 def py_decomposition(L, repo, rule):
     ci, fd = repo.need_method("gsm_shared", "HoppingParams", "fn2gsm_time")
     L.unit(F_GSM)
@@ -1774,15 +2058,7 @@ def py_decomposition(L, repo, rule):
     res = renorm(res, lambda t: V("FN") if t == V(names[0]) else None)
     # arms that no frame number of the hyperframe can take (a range assertion, a defensive raise) are decided by intervals
     res = prune(res, {V("FN"): (0, HYPERFRAME - 1)})
-    if any(x[0] == "raise" for x in ite_leaves(res)):
-        # a raising arm that the intervals do not exclude: refuted by a concrete frame number when one of the boundary
-        # witnesses reaches it, otherwise no verdict (below)
-        for w in boundary_witnesses(res, 0, HYPERFRAME - 1, (25, 26, 50, 51, 1325, 1326, 2047 * 1326)):
-            v = evalnum(res, {V("FN"): w})
-            if v is not None and v[0] == "raise":
-                L.ob(rule, F_GSM, "HoppingParams.fn2gsm_time", "fn2gsm_time(FN) returns (T1, T2, T3, TC) for every FN in 0..2715647",
-                     "a 4-tuple", "raises %s for FN = %d" % (v[1], w), False, fd.lineno)
-                break
+    res = total_on_domain(L, rule, res, fd)
     if res[0] != "tuple" or len(res) != 5:
         raise AnalysisError("HoppingParams.fn2gsm_time does not return a 4-tuple on every path: %s" % show(res)[:80])
     return fd, dict(zip(("t1", "t2", "t3", "tc"), [euclid(x) for x in res[1:]]))
